@@ -73,6 +73,7 @@ def cells(tier):
         out.append({'kind': 'policyfail', 'backend': 'dict'})
         out.append({'kind': 'retry', 'backend': 'dict', 'msgs': 1, 'fails': 2,
                     'op_time': 1})
+        out.append({'kind': 'stale', 'backend': 'dict', 'store_pool': 1})
         # bounded store pools
         out.append({'kind': 'retry', 'backend': 'dict', 'msgs': 2, 'fails': 1,
                     'store_pool': 1})
@@ -477,6 +478,49 @@ def run_load(cell):
                   'attempted-late', tag=tag, **info)
     w.check_not_early(info, ids)
     w.check_not_forgotten(info, ids)
+
+
+def run_stale(cell):
+    """start-up with a bounded store pool and one slow fetch: the scheduler
+    is held up while it hands out the due messages; a message that becomes
+    due after that, when both pools are idle again, is attempted at its due
+    time"""
+    import gevent
+    w = World(cell, lambda tag: 0)
+    store = w.store
+    lat = api.real('get_latency', 0, 2)
+    due_c = api.real('due_c', 0, 6)
+    api.assume(lat > 0)
+    api.assume(due_c > lat)
+    ids = {}
+
+    def prep():
+        for tag, due in (('a', 0), ('b', 0), ('c', due_c)):
+            ids[tag] = store.write(qc.make_envelope(tag, 's@z', ['a@x']), due)
+    gevent.spawn(prep)
+    qc.run_until_quiescent()
+    orig_get = store.get
+
+    def get(id):
+        if id == ids['a']:
+            gevent.sleep(lat)       # a slow read (big message, remote store)
+        return orig_get(id)
+    store.get = get
+    w.queue.start()
+    qc.run_until_quiescent()
+    w.queue.kill()
+    info = dict(backend=cell['backend'], kind='stale')
+    api.observe('calls', [c['tag'] for c in w.relay.calls])
+    for tag in ('a', 'b', 'c'):
+        calls = [c for c in w.relay.calls if c['tag'] == tag]
+        if not api.prove(len(calls) == 1, 'loaded-message-never-attempted',
+                         tag=tag, n=len(calls), **info):
+            continue
+        if tag == 'c':
+            api.prove(calls[0]['start'] >= due_c, 'attempted-early', tag=tag,
+                      **info)
+            api.prove(calls[0]['start'] == due_c, 'attempted-late', tag=tag,
+                      **info)
 
 
 def run_flush(cell):
